@@ -20,7 +20,7 @@ package hh
 //@ func (*queue).loadSegments
 //@   props C04
 //@   loop 1 invariant non_nil: all(k, 0, len(segments), segments[k] != nil)
-//@   loop 1 invariant own_storage: len(segments) == 0 || fresh(segments)
+//@   loop 1 invariant own_storage: cap(segments) == 0 || fresh(segments)
 //@   ensures non_nil: all(k, 0, len(result0), result0[k] != nil)
 //@   ensures in_id_order: result1 == nil ==> all(i, 0, len(result0), all(j, i+1, len(result0), result0[i].id <= result0[j].id))
 
